@@ -521,8 +521,15 @@ class FileOffsetTable:
         return self.exists() and os.path.getmtime(self.offset_table_path) >= os.path.getmtime(self.data_file_path)
 
     def __enter__(self) -> Self:
-        self.offset_file = open(self.offset_table_path, self.mode)
+        if self._writing():
+            # build the table under a temporary name so that an interrupted build never leaves a partial but seemingly valid table
+            self.offset_file = open(f"{self.offset_table_path}.tmp", self.mode)
+        else:
+            self.offset_file = open(self.offset_table_path, self.mode)
         return self
+
+    def _writing(self) -> bool:
+        return "w" in self.mode
 
     def add_offset(self, line_number: int, offset: int) -> None:
         """
@@ -565,6 +572,11 @@ class FileOffsetTable:
         assert self.offset_file is not None, "File offset table must be opened in a context manager block."
         self.offset_file.close()
         self.offset_file = None
+        if self._writing():
+            if exc_type is None:
+                os.replace(f"{self.offset_table_path}.tmp", self.offset_table_path)
+            else:
+                os.remove(f"{self.offset_table_path}.tmp")
         return False
 
     @classmethod
